@@ -128,6 +128,29 @@ pub fn check_program(prog: &Program, seed: u64, thorough: bool, rep: &mut Report
         check_term(&mut s, rep, t, k);
         check_vs_construction(&mut s, rep, t, k);
     }
+    // ask again after the whole history, in reverse order: answers must not depend on earlier queries
+    for k in (0..s.run.terms.len()).rev() {
+        let t = s.run.terms[k];
+        if let Ok(d) = s.ctx.term_dfa(t) {
+            if closure_size(&mut s.m, t, closure_cap(thorough)).is_none() {
+                continue;
+            }
+            rep.inc("emptiness_reasked_after_history");
+            let empty = d.is_empty();
+            match guard(|| (s.m.is_empty_re(t), s.m.get_string(t).is_none())) {
+                Ok((e1, none)) => {
+                    if e1 != empty || none != empty {
+                        s.viol(rep, "emptiness", "emptiness:history-dependent", format!("asked again after other queries: is_empty_re({}) = {}, get_string is None = {}, but the language is {}", term_text(t), e1, none, if empty { "empty" } else { "non-empty" }), k);
+                        break;
+                    }
+                }
+                Err(msg) => {
+                    s.viol(rep, "emptiness", "emptiness:panic", format!("is_empty_re/get_string panicked when asked again: {}", msg), k);
+                    break;
+                }
+            }
+        }
+    }
     // derivatives are inputs too: sample terms from the manager's store
     let all = s.m.verif_terms();
     let extra = if thorough { 40 } else { 15 };
